@@ -40,7 +40,10 @@ Definition cmp := list level.                       (* _comparison_levels_exclud
 Record params := { lam : Q; cmps : list cmp }.      (* CoreModelSettings *)
 Record flags := { fix_m : bool; fix_u : bool; fix_lam : bool }.   (* training_fixed_probabilities *)
 
-Definition sumQ {A : Type} (f : A -> Q) (l : list A) : Q := fold_right (fun x a => f x + a) 0 l.
+(* sum(..) : the running total is kept in lowest terms (Qred) so that the model stays cheap to
+   execute on long tables; qadd a b == a + b *)
+Definition qadd (a b : Q) : Q := Qred (a + b).
+Definition sumQ {A : Type} (f : A -> Q) (l : list A) : Q := fold_right (fun x a => qadd (f x) a) 0 l.
 
 (* ------------------------------------------------------------------------------------ *)
 (* E-step: match probability of one comparison-vector row                                *)
@@ -272,7 +275,7 @@ Fixpoint greedy {X : Type} (cands : list (list string * X)) (cols : list string)
 (* _get_comparison_levels_corresponding_to_training_blocking_rule.
    nl : normalisation applied to the LEVEL's column names (the code lower-cases the level's
         sql_condition);  nb : normalisation applied to the BLOCKING RULE's column names
-        (the code applies none: `fun s => s`) *)
+        (the code lower-cases them too; before fix 6a6654d9 it applied none) *)
 Definition exact_cands (m : model) (nl : string -> string) : list (list string * level) :=
   flat_map (fun c => flat_map (fun l => match ml_exact l with
                                         | Some cols => [(map nl cols, ml_lv l)]
@@ -288,10 +291,10 @@ Definition level_bf (l : level) : Q := rd (lv_m l) / rd (lv_u l).     (* Compari
 Definition adjusted_prior (nl nb : string -> string) (br_cols : list string) (m : model) : Q :=
   bf_to_prob (fold_left (fun bf l => level_bf l * bf) (levels_for_rule nl nb br_cols m) (prob_to_bf (md_lam m))).
 
-(* what the code does today: level names lower-cased, blocking-rule names untouched *)
-Definition adjusted_prior_impl := adjusted_prior lower (fun s => s).
-(* case-insensitive on both sides (the repaired behaviour) *)
-Definition adjusted_prior_ci := adjusted_prior lower lower.
+(* what the code does (since fix 6a6654d9): both sides lower-cased *)
+Definition adjusted_prior_impl := adjusted_prior lower lower.
+(* the behaviour before that fix: level names lower-cased, blocking-rule names untouched *)
+Definition adjusted_prior_one_sided := adjusted_prior lower (fun s => s).
 (* the specification: names compared as they are, on both sides *)
 Definition adjusted_prior_spec := adjusted_prior (fun s => s) (fun s => s).
 
